@@ -508,7 +508,15 @@ class Executor:
             if op == "Div":
                 return Prim(ty, z3.fpDiv(RNE, x, y))
             if op == "Rem":
-                return Prim(ty, FMOD(x, y))
+                t = FMOD(x, y)
+                # what IEEE-754 / C `fmod` fixes about the result whatever the operands: it is NaN exactly when an
+                # operand is NaN, the dividend is infinite or the divisor is zero; otherwise it is finite, smaller in
+                # magnitude than the divisor (or equal to a dividend that is already smaller) and never larger than the dividend
+                nan_iff = z3.Or(z3.fpIsNaN(x), z3.fpIsNaN(y), z3.fpIsInf(x), z3.fpIsZero(y))
+                self.add_invariant(("fmod", t.get_id()), z3.And(z3.fpIsNaN(t) == nan_iff,
+                                                                z3.Implies(z3.Not(nan_iff), z3.And(z3.Not(z3.fpIsInf(t)), z3.fpLEQ(z3.fpAbs(t), z3.fpAbs(x)),
+                                                                                                   z3.Implies(z3.Not(z3.fpIsInf(y)), z3.fpLT(z3.fpAbs(t), z3.fpAbs(y)))))))
+                return Prim(ty, t)
             cmp = {"Eq": z3.fpEQ, "Ne": lambda p, q: z3.Not(z3.fpEQ(p, q)), "Lt": z3.fpLT, "Le": z3.fpLEQ, "Gt": z3.fpGT, "Ge": z3.fpGEQ}
             if op in cmp:
                 return Prim("bool", cmp[op](x, y))
@@ -1305,6 +1313,16 @@ def m_result_method(ex, st, callee, args, dest_ty, frame, depth):
                 out.append((s2, Outcome("ret", ex.mk_enum(dest_ty, "Err", [errv]))))
             else:
                 out += ex.call_value(s2, args[1], [okv], dest_ty, frame, depth)
+        elif method == "map_or_else":
+            if vn == "Err":
+                out += ex.call_value(s2, args[1], [errv], dest_ty, frame, depth)
+            else:
+                out += ex.call_value(s2, args[2], [okv], dest_ty, frame, depth)
+        elif method == "map_or":
+            if vn == "Err":
+                out.append((s2, Outcome("ret", args[1])))
+            else:
+                out += ex.call_value(s2, args[2], [okv], dest_ty, frame, depth)
         elif method == "ok":
             if vn == "Ok":
                 out.append((s2, Outcome("ret", ex.mk_enum(dest_ty, "Some", [okv]))))
@@ -1531,6 +1549,13 @@ def m_from_same(ex, st, callee, args, dest_ty, frame, depth):
     if last_seg(T) == last_seg(U) and generic_args(T) == generic_args(U):
         return _ret(st, args[0])
     fn = ex.prog.resolve(callee, args, frame.fn)
+    if fn is None:
+        # impls generated by attribute macros (thiserror's #[from]) sit at the attribute's span, which the source
+        # scanner does not index: look the body up by its signature
+        cands = [f for f in ex.prog.fns if f.name.endswith(">::from") and len(f.params) == 1
+                 and last_seg(f.params[0][1].lstrip("&")) == last_seg(U) and last_seg(f.ret) == last_seg(T) and "<impl at " in f.name]
+        if len(cands) == 1:
+            fn = cands[0]
     if fn is None:
         raise Unencodable(f"no From impl body for {callee}")
     return ex.exec_fn(st, fn, args, depth + 1)
